@@ -214,9 +214,13 @@ def r6_padding0(ctx):
     L1 = o.of_operand(tb[0].args[0])
     L2 = o.of_operand(fe[0].args[1])
     inner2 = L2[3] if isinstance(L2, tuple) and L2[0] == "cast" else L2
-    same = strip_bb(inner2) == strip_bb(L1)
+    # the size generator is random: "the same value" means the same evaluation (same call site), not the same expression
+    same = inner2 == L1
     ctx.ob("R05.6", "send_authentication:length=fill", same, tb[0].site, "declared padding0 length and the zero bytes written are the same value" if same else
-           "declared length %s but %s zero bytes are written: the server starts frame parsing at the wrong offset" % (fmt(L1)[:80], fmt(L2)[:80]))
+           "declared length %s but %s zero bytes are written%s: the server starts frame parsing at the wrong offset" % (fmt(L1)[:80], fmt(L2)[:80],
+           " (two separate draws from the random size generator)" if strip_bb(inner2) == strip_bb(L1) else ""))
+    gens = calls_norm(auth, GEN)
+    ctx.ob("R05.6", "send_authentication:one-draw-of-line-0", len(gens) == 1, gens[0].site if gens else "", "line 0 is drawn once" if len(gens) == 1 else "%d draws of the preamble padding size" % len(gens))
     first = any(is_call_term(s, "::first") for s in subterms(L1)) and any(is_call_term(s, GEN) for s in subterms(L1))
     ctx.ob("R05.6", "send_authentication:first-size-of-line-0", first, tb[0].site, "padding0 = first size generated for line 0" if first else "padding0 length is %s" % fmt(L1)[:120])
     cs = [c for c in narrowing_casts(auth) if c["to"] == "u16"]
@@ -357,7 +361,46 @@ def r10_scheme_parse(ctx):
     ctx.ob("R05.10", "generate_record_payload_sizes:range-split-on-trimmed-entry", oks, sp[0].site if sp else "", "min-max is split from the trimmed entry" if oks else "the range is split from an untrimmed entry")
 
 
+def r11_no_header_only_padding(ctx):
+    """a payload record gets a padding frame only when there is padding to carry: `size - (payload + 7)` saturates to 0 when the
+    payload ends 1..6 bytes short of the drawn size, and a header-only Waste frame appended then makes the record longer than drawn"""
+    from engine.anl.casts import guard_bounds
+    body = co(ctx, "R05.11", S + "write_with_padding")
+    if body is None:
+        return
+    cfg, conds, o = ctx.cfg(body), ctx.conds(body), ctx.origins(body)
+    n = 0
+    for c in calls_norm(body, "BufMut::put_u16"):
+        t = o.of_operand(c.args[1])
+        L = t[3] if isinstance(t, tuple) and t[0] == "cast" else t
+        subs = [s for s in subterms(L) if is_call_term(s, "::saturating_sub")]
+        if not subs:
+            continue
+        n += 1
+        T = subs[0]
+        lo, hi, used = guard_bounds(body, cfg, conds, o, T, c.bb)
+        ok = lo is not None and lo >= 1
+        if not ok:
+            for cd in conds.all():
+                tt = cd.term
+                if cd.kind != "bool" or not (isinstance(tt, tuple) and tt and tt[0] == "binop"):
+                    continue
+                if tt[1] == "Ne" and strip_bb(tt[2]) == strip_bb(T) and const_value(tt[3]) == 0 and cfg.edges_dominate(cd.edges_for(True), c.bb):
+                    ok = True
+                # the same test spelt on the operands: payload + 7 < size
+                if len(T[3]) == 2 and tt[1] == "Lt" and strip_bb(tt[2]) == strip_bb(T[3][1]) and strip_bb(tt[3]) == strip_bb(T[3][0]) and cfg.edges_dominate(cd.edges_for(True), c.bb):
+                    ok = True
+                if len(T[3]) == 2 and tt[1] == "Le" and strip_bb(tt[2]) == strip_bb(T[3][0]) and strip_bb(tt[3]) == strip_bb(T[3][1]) and cfg.edges_dominate(cd.edges_for(False), c.bb):
+                    ok = True
+        ctx.ob("R05.11", "payload+padding:frame-only-when-padding-remains#%d" % n, ok, c.site,
+               "the Waste header whose length is `%s` is built only where that value is known to be >= 1" % fmt(T)[:60] if ok else
+               "a Waste header with length `%s` is appended without a dominating test that the value is positive: when the payload ends 1..6 bytes below the drawn size the value saturates to 0 and the "
+               "header-only padding frame makes the record up to 6 bytes longer than the size drawn from the scheme" % fmt(T)[:70])
+    ctx.floor("R05.11", "padding frames whose length is a saturating difference", n, 1)
+
+
 def run(ctx):
+    r11_no_header_only_padding(ctx)
     from . import C19
     C19.r2_new_sessions(ctx)   # the preamble (line 0) and the session (lines 1..) are given one and the same scheme object
     r10_scheme_parse(ctx)
